@@ -136,9 +136,9 @@ pub fn run_range(scratch: &Path, out: &mut Out, tier: &str, seed: u64) {
                 mark(&json!({"ev": "range", "L": l, "s": sb, "e": eb}));
                 let (res, alloc) = measure(|| catch_unwind(AssertUnwindSafe(|| cas.get_range(&key, sv, ev))));
                 let line = match res {
-                    Err(_) => json!({"ev": "range", "L": l, "s": sb, "e": eb, "st": "panic", "offs": [], "len": 0, "alloc": alloc, "bytes_ok": false}),
-                    Ok(Err(_)) => json!({"ev": "range", "L": l, "s": sb, "e": eb, "st": "err", "offs": [], "len": 0, "alloc": alloc, "bytes_ok": true}),
-                    Ok(Ok(None)) => json!({"ev": "range", "L": l, "s": sb, "e": eb, "st": "absent", "offs": [], "len": 0, "alloc": alloc, "bytes_ok": false}),
+                    Err(_) => json!({"ev": "range", "L": l, "s": sb, "e": eb, "st": "panic", "offs": [], "at_start": false, "len": 0, "alloc": alloc, "bytes_ok": false}),
+                    Ok(Err(_)) => json!({"ev": "range", "L": l, "s": sb, "e": eb, "st": "err", "offs": [], "at_start": false, "len": 0, "alloc": alloc, "bytes_ok": true}),
+                    Ok(Ok(None)) => json!({"ev": "range", "L": l, "s": sb, "e": eb, "st": "absent", "offs": [], "at_start": false, "len": 0, "alloc": alloc, "bytes_ok": false}),
                     Ok(Ok(Some(b))) => {
                         // where in the content do these bytes occur?  (independent of the clamping rule;
                         // a short slice may occur at several offsets: all of them are reported)
@@ -147,8 +147,13 @@ pub fn run_range(scratch: &Path, out: &mut Out, tier: &str, seed: u64) {
                         } else {
                             content.windows(b.len()).enumerate().filter(|(_, w)| *w == &b[..]).map(|(i, _)| i).take(400).collect()
                         };
-                        json!({"ev": "range", "L": l, "s": sb, "e": eb, "st": "ok", "offs": offs, "len": b.len(), "alloc": alloc,
-                               "bytes_ok": b.is_empty() || !offs.is_empty()})
+                        // do the returned bytes sit in the content at the REQUESTED start? (a plain comparison with the
+                        // request; which start/length the call should have used is decided by the specification)
+                        let at_start = (sv as usize) < content.len()
+                            && content.len() - sv as usize >= b.len()
+                            && content[sv as usize..sv as usize + b.len()] == b[..];
+                        json!({"ev": "range", "L": l, "s": sb, "e": eb, "st": "ok", "offs": offs, "at_start": at_start, "len": b.len(),
+                               "alloc": alloc, "bytes_ok": b.is_empty() || !offs.is_empty()})
                     }
                 };
                 out.emit(&line);
